@@ -122,7 +122,29 @@ def directed_cases(seed, n):
         a, b = strgen.gen_plain(rng, 3), strgen.gen_plain(rng, 3)
         # a must not end with a backslash (that would escape the reference)
         a = a.rstrip("\\")
-        kind = i % 4
+        kind = i % 6
+        if kind == 4:
+            # a cycle that is closed only AFTER references to unknown names (ignored / emptied): the unknown names must not disturb the
+            # cycle guard; with the error policy the missing name is reported first
+            u1, u2 = "UNDEF_A", "UNDEF_B"
+            pol = rng.choice(["ignore", "empty"])
+            b = b.rstrip("\\")
+            val = "${" + u1 + "} " + a + " ${" + u2 + "} ${" + k + "}"
+            if rng.random() < 0.4:
+                # a cycle through two variables
+                k2 = rng.choice([x for x in strgen.KEYS if x != k] or [k + "2"])
+                out.append(({"op": "expand", "s": "${" + k + "}", "vars": [[k, "${" + u1 + "} ${" + k2 + "}"], [k2, "${" + u2 + "} ${" + u1 + "} ${" + k + "}"]], "pol": pol},
+                            {"err": "cycle", "k": k}))
+            else:
+                out.append(({"op": "expand", "s": b + "${" + k + "}", "vars": [[k, val]], "pol": pol}, {"err": "cycle", "k": k}))
+            continue
+        if kind == 5:
+            # expressions are evaluated independently of each other: an assignment inside one $(...) must not be visible to the next
+            # (the requests of a batch run in ONE process, one after the other)
+            j = (i // 6) % 3
+            e, v = [("$(x = 10; x / 2)", "5"), ("$(x = 1.5; x * 2)", "3"), ("$(y = 4; y + 1)", "5")][j]
+            out.append(({"op": "eval", "s": a.replace("$", "") + e}, {"ok": a.replace("$", "") + v}))
+            continue
         if kind == 0:
             out.append(({"op": "expand", "s": a + "${" + k + "}" + b, "vars": [[k, "${" + k + "}"]], "pol": rng.choice(POLS)},
                         {"err": "cycle", "k": k}))
@@ -242,6 +264,8 @@ def run(chk):
                 chk.fail_oracle(f"expand:panic:{'multibyte' if mb else 'ascii'}", f"expand panics on {c['s']!r}", {"case": c, "impl": a})
             else:
                 chk.fail_oracle("expand:directed", f"{c} -> {canon(a)} expected {exp}", {"case": c, "impl": a, "expected": exp})
+        if c["op"] == "eval":
+            continue          # expression values are a parameter of the model (table protocol): implementation-side expectation only
         chk.disagreements_checked += 1
         if canon(a) != canon(m):
             chk.fail_disagree(f"directed {c['s']!r}: impl {canon(a)} model {canon(m)}", {"case": c, "impl": a, "model": m})
